@@ -138,3 +138,10 @@ package identity
 //@   check [invalid-does-not-stop] sentcount(out) == len(remoteRefs) || (sentcount(out) > 0 && (sentat(out, sentcount(out) - 1).Status == entity.MergeStatusError || sentat(out, sentcount(out) - 1).Err != nil))
 //@   loop 1
 //@     invariant sentcount(out) == rangeindex + 1
+
+// Building the OpenPGP entity used to verify (or make) signatures must work for every key of a stored
+// identity: keys read from git carry no private part (C07, C08).
+//@ func (*Key).PGPEntity
+//@   props C07 C08
+//@   nopanic
+//@   requires k != nil && k.public != nil
